@@ -124,6 +124,16 @@ def isPerm (n : Nat) (pi : Nat → Nat) : Bool :=
   let img := (List.range n).map pi
   decide img.Nodup && img.all fun j => decide (j < n)
 
+/-- donor map as a total function: an interior cell (`i < nint`), or an exterior cell without donor, is its own
+donor (its swirl term vanishes) -/
+def donorN (nint : Nat) (d : Nat → Option Nat) (i : Nat) : Nat := if i < nint then i else (d i).getD i
+
+/-- the total donor map restricted to the exterior ring `lo ≤ i < hi` is injective and stays in the ring
+(so `donorN lo d` permutes the cells `< hi`) -/
+def donorRingCert (lo hi : Nat) (d : Nat → Option Nat) : Bool :=
+  let img := (List.range (hi - lo)).map fun k => (d (lo + k)).getD (lo + k)
+  decide img.Nodup && img.all fun j => decide (lo ≤ j) && decide (j < hi)
+
 /-- `pi` preserves types, the neighbour relation and the given donor map (it may map the donor map
 `donorA` to another donor map `donorB`: rotations keep the direction, the mirror swaps it) -/
 def autoCert (ncool nint : Nat) (tyf : Nat → Nat) (nb : Nat → List Nat) (donorA donorB : Nat → Option Nat)
